@@ -36,14 +36,14 @@ type fsVariant struct {
 	known string // signature of the reported defect this variant hits ("" = none)
 }
 
-// Known genuine defect (reported): with the working directory removed, any
+// Genuine defect confirmed by this check, FIXED in /repo (f3be4e9): with the working directory removed, any
 // reference to a table by a relative name ends in "Fatal Error ... nil pointer
 // dereference": cacheViewFromFile (lib/query/load_view.go:897) builds the I/O
 // error from the nil named result `err` instead of the error `e` that
 // CreateFilePath returned. While true those statements are not generated so
 // that the other statements of the state keep being checked; set to false to
 // reproduce (signature cwd_removed_nil_error).
-const avoidKnownCwdRemovedNil = true
+const avoidKnownCwdRemovedNil = false
 
 func kq(known, sql string) fsVariant { return fsVariant{args: []string{"-q", sql}, known: known} }
 
